@@ -404,3 +404,18 @@ def check(ctx, rep: Report):
     rep.sample({"entry": "prepare_item", "rows": r["rows"][:4]})
     for b in sorted(set(bad)):
         rep.violate(Violation("C06.KEY", f"C06.KEY|{b[:60]}", f"CollectionAttrMutator.prepare_item: {b}", "", "CollectionAttrMutator.prepare_item"))
+
+
+    # ---- CONT: the keyed container edits like a list *and* keeps its by-key view in step (shared with C13.COH)
+    rep.rules["C06.CONT"] = "KeyedList primitives used by the element helpers update list and key index together on every normal path"
+    from .c13 import _balance, op_worker
+    for r in pmap(op_worker, [("__setitem__", ["index_or_key", "value"], True), ("__delitem__", ["index_or_key"], True), ("insert", ["index", "value"], None)]):
+        meth = r["task"][0]
+        bad = []
+        for row in r["rows"]:
+            la, lr, da, dr = _balance(row["trace"])
+            if row["kind"] == "ok" and (la != da or lr != dr):
+                bad.append(f"a normal path changes the list ({la} in/{lr} out) and the key index ({da} in/{dr} out) differently")
+        rep.oblige("C06.CONT", f"KeyedList.{meth}", not bad, "; ".join(sorted(set(bad))))
+        for b in sorted(set(bad)):
+            rep.violate(Violation("C06.CONT", f"C06.CONT|{meth}|{b[:60]}", f"KeyedList.{meth}: {b}: a second by-key element edit starts from a stale element", "", f"KeyedList.{meth}"))
